@@ -141,8 +141,11 @@ def _files(w, kind="file"):
     return sorted(w.path(i) for i in gen._versioned(w, (kind,)))
 
 
-def pending(rng, wt, names, nops, log):
-    """Apply a program of pending changes to wt (no commit).  Returns number of ops applied."""
+def pending(rng, wt, names, nops, log, idprefix="n"):
+    """Apply a program of pending changes to wt (no commit).  Returns number of ops applied.
+
+    idprefix: prefix of the file ids given to added files (a second program on the same tree must not hand out the ids of the first).
+    """
     w = gen.world_from_tree(wt)
     idn = [0]
     done = 0
@@ -150,7 +153,7 @@ def pending(rng, wt, names, nops, log):
     def real(op):
         if op["op"] == "add":
             idn[0] += 1
-            op["id"] = "n%d-%s" % (idn[0], "".join(c for c in op["path"] if c.isalnum())[:10])
+            op["id"] = "%s%d-%s" % (idprefix, idn[0], "".join(c for c in op["path"] if c.isalnum())[:10])
         try:
             gen.apply_real(wt, op)
         except Exception as e:  # refused by breezy (judged by C09, not here): resync the helper model
